@@ -112,7 +112,7 @@ type textOpts struct {
 
 var fixedLines = []string{
 	"", "", " ", "\t", "a", "b", "abc", "---", "---", "--- ", " ---", "----", "---moredata", "--", "-",
-	"[]", "[", "]", "a\rb", "\rstart", "x\ty", "é", "日本", "\xff", "\xfe", "\x80", "a\xffb", "\xc3", "\x00", "\v", "\f",
+	"[]", "[", "]", "a\rb", "\rstart", "x\ty", "é", "日本", "\xff", "\xfe", "\x80", "a\xffb", "\xc3", "caf\xe9 au lait", "caf\uFFFD au lait", "\uFFFD", "\x00", "\v", "\f",
 	"{", "}", "key: value", "- item", "#comment", "  indented", "trailing  ", "\"quoted\"", "%d %s %%",
 }
 
@@ -372,4 +372,27 @@ func genVal(t *rapid.T, o textOpts, col *collector) Val {
 		}
 	}
 	return genStrVal(t, o, col)
+}
+
+// genUTF8Pair: two texts that differ only in bytes a rune-based comparison maps to U+FFFD
+// (invalid bytes, truncated sequences, encoded surrogates) or in such a byte versus a real U+FFFD.
+var badSeqs = []string{"\xff", "\xfe", "\x80", "\xe9", "\uFFFD", "\xc3", "\xc3\x28", "\xed\xa0\x80", "\xf8", "\xc0\xaf", "\xf4\x90\x80\x80"}
+
+func genUTF8Pair(t *rapid.T) (string, string) {
+	base := rapid.SampledFrom([]string{"", "x", "caf au lait", "a b", "line1\nline2", "k: v", "日本"}).Draw(t, "u8base")
+	p := rapid.IntRange(0, len(base)).Draw(t, "u8pos")
+	for !utf8.RuneStart(append([]byte(base), 'x')[p]) {
+		p--
+	}
+	i := rapid.IntRange(0, len(badSeqs)-1).Draw(t, "bad1")
+	j := rapid.IntRange(0, len(badSeqs)-2).Draw(t, "bad2")
+	if j >= i {
+		j++
+	}
+	a := base[:p] + badSeqs[i] + base[p:]
+	b := base[:p] + badSeqs[j] + base[p:]
+	if rapid.IntRange(0, 4).Draw(t, "u8drop") == 0 {
+		b = base[:p] + base[p:] + badSeqs[j]
+	}
+	return a, b
 }
